@@ -200,3 +200,42 @@ Fixpoint search_loop (fuel : nat) (f : Z -> res unit bool) (i j : Z) : res unit 
   end.
 Definition go_sort_search (n : Z) (f : Z -> res unit bool) : res unit Z :=
   search_loop (Datatypes.S (Z.to_nat n)) f 0%Z n.
+
+(* ---- strings and fmt -----------------------------------------------------------------
+   strings.ContainsAny with an ASCII set, bytewise; strings.ReplaceAll for a non-empty old
+   (leftmost, non-overlapping); fmt.Fprintf with a format held in a variable and one
+   argument already rendered: the first "%v" is replaced. *)
+Definition go_contains_any (s chars : list N) : bool :=
+  existsb (fun c => existsb (N.eqb c) chars) s.
+
+Fixpoint is_prefix (p s : list N) : bool :=
+  match p, s with
+  | [], _ => true
+  | x :: p', y :: s' => (N.eqb x y && is_prefix p' s')%bool
+  | _ :: _, [] => false
+  end.
+
+Fixpoint replace_aux (fuel : nat) (s old new : list N) : list N :=
+  match fuel with
+  | O => s
+  | Datatypes.S f =>
+    match s with
+    | [] => []
+    | c :: r =>
+      if is_prefix old s then new ++ replace_aux f (skipn (length old) s) old new
+      else c :: replace_aux f r old new
+    end
+  end.
+
+Definition go_replace_all (s old new : list N) : list N :=
+  match old with
+  | [] => s
+  | _ => replace_aux (Datatypes.S (length s)) s old new
+  end.
+
+Fixpoint go_fmt1 (f arg : list N) : list N :=
+  match f with
+  | 37%N :: 118%N :: r => arg ++ r
+  | c :: r => c :: go_fmt1 r arg
+  | [] => []
+  end.
